@@ -883,7 +883,9 @@ class _MIPS32_ELF(ABI):
         return self.get_register("sp")
 
     def temporary_label_prefix(self) -> str:
-        return ".L"
+        # The private label prefix of the O32 ABI; ".L" labels are ordinary
+        # symbols there.
+        return "$"
 
     def default_dwarf_eh_return_column(self) -> int:
         # $ra, as in the CIEs GCC and LLVM emit.
